@@ -28,10 +28,11 @@ Genuine defects found on the pinned tree (known_findings.d/C17.json, proposed_fi
   (ii) an oversize datagram is dropped with `break`: the poll returns Pending with input still
        queued and no waker registered (the driver sleeps, later datagrams starved).
 
-Mutation self-tests done while building (known-findings file moved away for the run, fix
-applied): `break` instead of `continue` after the drop -> VIOLATION kind=starved; stride written
-as the slot length -> VIOLATION kind=not_prefix; pending_item not cleared when empty ->
-caught as well (see final report).  Undoing each -> exit 0.
+Self-tests done while building: with proposed_fixes/C17.diff applied to /repo the quick tier
+passes with 0 known-finding hits (2 367 behaviours); on top of the fix, `break 'slots` instead of
+`continue` after the drop (the design's example mutation; known-findings entry moved away for
+that run because the symptom is the one of finding (ii)) -> `VIOLATION property=C17`,
+kind starved (driver asleep after 0 of 1 deliverable datagrams); undone -> exit 0.
 """
 import json
 
